@@ -1,6 +1,6 @@
 """T1 plug-in for the layout model (C01, C06, C10; also in the cone of C08, C11, C13): Gen/LayoutParams.v.
 
-Reads src/stingray/schema_instance.py with `ast` and states, in the vocabulary of coq/Model/LayoutRule.v, the rules by
+Reads src/stingray/schema_instance.py (and one method of workbook.py) with `ast` and states, in the vocabulary of coq/Model/LayoutRule.v, the rules by
 which a Location tree is built and navigated:
 
   Location.__init__                 what start / end / size a location stores for the (start, end) it is given
@@ -11,7 +11,9 @@ which a Location tree is built and navigated:
                                     how the running offset of an object advances, the aggregate over the alternatives
                                     of a oneOf, the end a $ref placeholder gets, the two $anchor registrations
   from_instance / from_schema       the default start and the start handed to walk
-  NDNav.name / index / raw          .referent, the comparison that refuses an index, the start of the re-walk, the slice
+  NDNav.name / index / raw          .referent, the comparisons that refuse an index (with item_count, with a constant), the start
+                                    of the re-walk, the slice
+  workbook.COBOL_EBCDIC_Sheet.set_schema   which exceptions of from_schema() are caught, and the lrecl kept then
   <Location class>.value            the slice an atom decodes, the offsets and the count of an array's occurrences, the offset
                                     handed on by an object / a oneOf (and which alternative it evaluates) / a $ref
 
@@ -912,6 +914,37 @@ def _unpacker_nav(cl):
         raise Unrecognised(f"{name}.nav body")
 
 
+CMP_OPS = {ast.GtE: "CmpGe", ast.Gt: "CmpGt", ast.LtE: "CmpLe", ast.Lt: "CmpLt", ast.Eq: "CmpEq", ast.NotEq: "CmpNe"}
+FLIP = {"CmpGe": "CmpLe", "CmpGt": "CmpLt", "CmpLe": "CmpGe", "CmpLt": "CmpGt", "CmpEq": "CmpEq", "CmpNe": "CmpNe"}
+NEGATE = {"CmpGe": "CmpLt", "CmpGt": "CmpLe", "CmpLe": "CmpGt", "CmpLt": "CmpGe", "CmpEq": "CmpNe", "CmpNe": "CmpEq"}
+
+
+def _conjuncts(t):
+    """a comparison, a chain  a < b <= c,  or an `and` of those -> [(left, op, right)] meaning their conjunction"""
+    if isinstance(t, ast.BoolOp) and isinstance(t.op, ast.And):
+        return [x for v in t.values for x in _conjuncts(v)]
+    if isinstance(t, ast.Compare):
+        out, left = [], t.left
+        for op, right in zip(t.ops, t.comparators):
+            if type(op) not in CMP_OPS:
+                raise Unrecognised("comparison operator")
+            out.append((left, CMP_OPS[type(op)], right))
+            left = right
+        return out
+    raise Unrecognised(f"test {ast.unparse(t)}")
+
+
+def _disjuncts(t):
+    """a comparison, an `or` of comparisons, or `not` of a conjunction -> [(left, op, right)] meaning their disjunction"""
+    if isinstance(t, ast.BoolOp) and isinstance(t.op, ast.Or):
+        return [x for v in t.values for x in _disjuncts(v)]
+    if isinstance(t, ast.UnaryOp) and isinstance(t.op, ast.Not):
+        return [(l, NEGATE[op], r) for l, op, r in _conjuncts(t.operand)]
+    if isinstance(t, ast.Compare) and len(t.ops) == 1:
+        return _conjuncts(t)
+    raise Unrecognised(f"test {ast.unparse(t)}")
+
+
 def _type_check(st, kind):
     return (isinstance(st, ast.If) and not st.orelse and ast.unparse(st.test) == f"self.schema.type != '{kind}'"
             and _raises(st.body, "TypeError"))
@@ -994,30 +1027,36 @@ def _ndnav(cl, P):
         raise Unrecognised("NDNav.index: type check")
     base = ("loc", {"start": pvar("VBaseStart"), "item_size": pvar("VItemSize"), "item_count": pvar("VItemCount")})
     b = Block("NDNav.index", {arg: I(pvar("VIndex")), "self.location": base})
-    refuse = None
+    refuse = refuse_low = None
     start = None
     for s in st[1:-1]:
         # subschema = self.schema.items
         if isinstance(s, ast.Assign) and len(s.targets) == 1 and isinstance(s.targets[0], ast.Name) and ast.unparse(s.value) == "self.schema.items":
             b.env[s.targets[0].id] = ("items-schema",)
             continue
-        # if index >= base_location.item_count: raise IndexError
+        # if <refusal>: raise IndexError     refusal = a disjunction of  index OP item_count  and  index OP <constant>
         if isinstance(s, ast.If):
-            t = s.test
-            if s.orelse or not _raises(s.body, "IndexError") or not isinstance(t, ast.Compare) or len(t.ops) != 1 or refuse or start:
+            if s.orelse or not _raises(s.body, "IndexError") or start is not None:
                 raise Unrecognised("NDNav.index: refusal")
-            l, r = b.integer(t.left), b.integer(t.comparators[0])
-            ops = {ast.GtE: "CmpGe", ast.Gt: "CmpGt", ast.LtE: "CmpLe", ast.Lt: "CmpLt", ast.Eq: "CmpEq", ast.NotEq: "CmpNe"}
-            flip = {"CmpGe": "CmpLe", "CmpGt": "CmpLt", "CmpLe": "CmpGe", "CmpLt": "CmpGt", "CmpEq": "CmpEq", "CmpNe": "CmpNe"}
-            op = ops.get(type(t.ops[0]))
-            if op is None:
-                raise Unrecognised("NDNav.index: comparison operator")
-            if l == pvar("VIndex") and r == pvar("VItemCount"):
-                refuse = op
-            elif l == pvar("VItemCount") and r == pvar("VIndex"):
-                refuse = flip[op]
-            else:
-                raise Unrecognised("NDNav.index: the refusal does not compare index with item_count")
+            for l, op, r in _disjuncts(s.test):
+                l, r = b.integer(l), b.integer(r)
+                if r == pvar("VIndex"):
+                    l, r, op = r, l, FLIP[op]
+                if l != pvar("VIndex"):
+                    raise Unrecognised("NDNav.index: the refusal does not test the index")
+                if r == pvar("VItemCount"):
+                    if refuse is not None:
+                        raise Unrecognised("NDNav.index: index compared with item_count twice")
+                    refuse = op
+                elif set(r) <= {()}:
+                    if refuse_low is not None:
+                        raise Unrecognised("NDNav.index: index compared with a constant twice")
+                    k = r.get((), 0)
+                    if not 0 <= k <= MAX_CONST:
+                        raise Unrecognised("NDNav.index: constant out of range")
+                    refuse_low = (op, k)
+                else:
+                    raise Unrecognised("NDNav.index: the refusal compares the index with something else")
             continue
         # item_location = LocationMaker(self.unpacker(), subschema).from_instance(self.instance, start=...)
         if isinstance(s, ast.Assign) and len(s.targets) == 1 and isinstance(s.targets[0], ast.Name) and isinstance(s.value, ast.Call) \
@@ -1043,7 +1082,7 @@ def _ndnav(cl, P):
         b.statement(s)
     if start is None or not _returns_ndnav(st[-1], b, ("item-loc",)):
         raise Unrecognised("NDNav.index: result")
-    P["index_refuse"], P["index_start"] = refuse, start
+    P["index_refuse"], P["index_refuse_low"], P["index_start"] = refuse, refuse_low, start
 
     # ---- raw
     fn = _method(nd, "raw")
@@ -1158,6 +1197,61 @@ def _values(cl, P):
         raise Unrecognised("NDNav.value")
 
 
+EXN_NAMES = ("ValueError", "TypeError", "IndexError", "KeyError", "RuntimeError", "NotImplementedError", "AttributeError", "AssertionError")
+
+
+def _set_schema(src, P):
+    """workbook.COBOL_EBCDIC_Sheet.set_schema:
+         result = super().set_schema(schema); wb = self.workbook()
+         if wb.lrecl: self.lrecl = wb.lrecl
+         else: [try:] loc = LocationMaker(wb.unpacker, self.schema).from_schema(); self.lrecl = loc.end
+               [except <names>: self.lrecl = None | <constant>]
+         return result"""
+    tree = _StripCast().visit(_parse(src, "stingray/workbook.py"))
+    cl = _classes(tree)
+    if "COBOL_EBCDIC_Sheet" not in cl:
+        raise Unrecognised("class COBOL_EBCDIC_Sheet not found")
+    fn = _method(cl["COBOL_EBCDIC_Sheet"], "set_schema")
+    if fn is None or len(_params(fn)) != 1:
+        raise Unrecognised("COBOL_EBCDIC_Sheet.set_schema not found")
+    arg = _params(fn)[0][0]
+    st = [s for s in _body(fn) if not _is_logger(s)]
+    if len(st) != 4 or not all(isinstance(s, ast.Assign) and len(s.targets) == 1 and isinstance(s.targets[0], ast.Name) for s in st[:2]):
+        raise Unrecognised("COBOL_EBCDIC_Sheet.set_schema body")
+    res, wb = st[0].targets[0].id, st[1].targets[0].id
+    if ast.unparse(st[0].value) != f"super().set_schema({arg})" or ast.unparse(st[1].value) != "self.workbook()" \
+            or ast.unparse(st[3]) != f"return {res}":
+        raise Unrecognised("COBOL_EBCDIC_Sheet.set_schema body")
+    br = st[2]
+    if not (isinstance(br, ast.If) and ast.unparse(br.test) == f"{wb}.lrecl" and [ast.unparse(x) for x in br.body] == [f"self.lrecl = {wb}.lrecl"]
+            and len(br.orelse) in (1, 2)):
+        raise Unrecognised("COBOL_EBCDIC_Sheet.set_schema: the lrecl test")
+
+    def computed(stmts):
+        if len(stmts) != 2 or not (isinstance(stmts[0], ast.Assign) and len(stmts[0].targets) == 1 and isinstance(stmts[0].targets[0], ast.Name)):
+            return False
+        loc = stmts[0].targets[0].id
+        return (ast.unparse(stmts[0].value) == f"LocationMaker({wb}.unpacker, self.schema).from_schema()"
+                and ast.unparse(stmts[1]) == f"self.lrecl = {loc}.end")
+
+    if computed(br.orelse):
+        P["set_schema_catches"], P["set_schema_caught_lrecl"] = [], 0
+        return
+    tr = br.orelse[0]
+    if not (len(br.orelse) == 1 and isinstance(tr, ast.Try) and computed(tr.body) and not tr.orelse and not tr.finalbody and len(tr.handlers) == 1):
+        raise Unrecognised("COBOL_EBCDIC_Sheet.set_schema: the computed lrecl")
+    h = tr.handlers[0]
+    names = [h.type] if isinstance(h.type, ast.Name) else list(h.type.elts) if isinstance(h.type, ast.Tuple) else None
+    if h.name is not None or not names or not all(isinstance(n, ast.Name) and n.id in EXN_NAMES for n in names):
+        raise Unrecognised("COBOL_EBCDIC_Sheet.set_schema: except clause")
+    if len(h.body) != 1 or not (isinstance(h.body[0], ast.Assign) and ast.unparse(h.body[0].targets[0]) == "self.lrecl" and len(h.body[0].targets) == 1
+                                and isinstance(h.body[0].value, ast.Constant)):
+        raise Unrecognised("COBOL_EBCDIC_Sheet.set_schema: handler")
+    v = h.body[0].value.value
+    P["set_schema_catches"] = [n.id for n in names]
+    P["set_schema_caught_lrecl"] = 0 if v is None else _const_int(h.body[0].value, "handler lrecl")
+
+
 def extract(src):
     tree = _StripCast().visit(_parse(src, "stingray/schema_instance.py"))
     ast.fix_missing_locations(tree)
@@ -1175,6 +1269,7 @@ def extract(src):
     _unpacker_nav(cl)
     _ndnav(cl, P)
     _values(cl, P)
+    _set_schema(src, P)
     return P
 
 
@@ -1197,7 +1292,7 @@ def gen_LayoutParams(src):
     return (
         "(* GENERATED by harness/t1_layout.py from src/stingray/schema_instance.py (Location.__init__ and the constructors of its\n"
         "   subclasses, LocationMaker.walk / from_instance / from_schema / size, NDNav.name / index / raw) -- do not edit *)\n"
-        "From Coq Require Import List.\nImport ListNotations.\nRequire Import SR.Model.LayoutRule.\n"
+        "From Coq Require Import List.\nImport ListNotations.\nRequire Import SR.Base.Res SR.Model.LayoutRule.\n"
         "(* Location.__init__(self, schema, start, end): self.start = ..; if <test>: self.end = ..; self.size = .. else: .. *)\n"
         + e("init_start") + e("init_test") + e("init_end_then") + e("init_size_then") + e("init_end_else") + e("init_size_else")
         + "(* LocationMaker.walk: the order of the cases of match schema; the registration of loc's $anchor after the match *)\n"
@@ -1226,10 +1321,12 @@ def gen_LayoutParams(src):
         + "(* from_instance(self, instance, start=<default>): self.walk(self.schema, <start>); from_schema likewise *)\n"
         + d("from_instance_default", "nat", P["from_instance_default"]) + e("from_instance_start")
         + d("from_schema_default", "nat", P["from_schema_default"]) + e("from_schema_start")
-        + "(* NDNav.name: properties[name].referent; NDNav.index: raise IndexError when index <refuse> item_count, else a fresh\n"
+        + "(* NDNav.name: properties[name].referent; NDNav.index: raise IndexError when index <refuse> item_count or index <refuse_low>\n"
+          "   (comparison, constant), else a fresh\n"
           "   LocationMaker(...).from_instance(self.instance, start=<index_start>); NDNav.raw: instance[<raw_lo> : <raw_hi>] *)\n"
         + d("name_via_referent", "bool", Bo(P["name_via_referent"]))
         + d("index_refuse", "option cmp", f"Some {P['index_refuse']}" if P["index_refuse"] else "None")
+        + d("index_refuse_low", "option (cmp * nat)", f"Some ({P['index_refuse_low'][0]}, {P['index_refuse_low'][1]})" if P["index_refuse_low"] else "None")
         + e("index_start") + e("raw_lo") + e("raw_hi")
         + "(* value(self, instance, offset=<default>) of the Location classes (NDNav.value passes no offset):\n"
           "   Atomic: unpacker.value(schema, instance[<lo> : <hi>]); Array: [items.value(instance, <offset>) for i in range(<count>)];\n"
@@ -1237,6 +1334,10 @@ def gen_LayoutParams(src):
         + d("value_default_offset", "nat", P["value_default_offset"])
         + e("atomval_lo") + e("atomval_hi") + e("arrval_count") + e("arrval_offset") + e("objval_offset")
         + d("oneval_pick", "pick", P["oneval_pick"]) + e("oneval_offset") + e("refval_offset")
+        + "(* workbook.COBOL_EBCDIC_Sheet.set_schema, when the workbook has no (or a zero) lrecl: self.lrecl = from_schema().end,\n"
+          "   inside  try: ... except <catches>: self.lrecl = <caught_lrecl>  (None counts as 0: both are false); [] = no try *)\n"
+        + d("set_schema_catches", "list exn", "[" + "; ".join(P["set_schema_catches"]) + "]")
+        + d("set_schema_caught_lrecl", "nat", P["set_schema_caught_lrecl"])
     )
 
 
